@@ -28,7 +28,18 @@ var (
 // shards of db0.rp0 (replication 2 over up to four data nodes, so that the
 // round-robin assignment wraps and lists such as [3 1] arise): copies to nodes
 // that are or are not owners yet, removals, and deletions of data nodes.
-type Bias struct{ Lists, Owners bool }
+//
+// A run with Groups set spends half of its commands on the shard groups of
+// db0.rp0 alone: groups created at six hours of one day (and a few minutes
+// around them), deleted (they linger, marked deleted, among the live ones),
+// truncated, and the policy's shard-group duration altered between an hour,
+// six hours and a day - so that a live group comes to span the range of
+// deleted and of shorter live groups, and the list is no longer ordered by
+// start time.
+type Bias struct {
+	Lists, Owners, Groups bool
+	step                  *int // commands drawn under this tilt so far
+}
 
 // GenBias draws the tilt of a run.
 func GenBias(t *rapid.T, l string) Bias {
@@ -37,6 +48,8 @@ func GenBias(t *rapid.T, l string) Bias {
 		return Bias{Lists: true}
 	case 1:
 		return Bias{Owners: true}
+	case 2:
+		return Bias{Groups: true, step: new(int)}
 	}
 	return Bias{}
 }
@@ -65,6 +78,41 @@ func GenCmdBiased(t *rapid.T, l string, b Bias) Cmd {
 			return CmdCreateUser("u0", "hash0", false)
 		case k < 13:
 			return CmdSetPrivilege("u0", rapid.SampledFrom([]string{"db0", "db1"}).Draw(t, l+".pdb"), rapid.IntRange(1, 3).Draw(t, l+".priv"))
+		}
+	}
+	if b.Groups && b.step != nil && *b.step < 3 {
+		// the run starts with what the groups need: a data node, the database, the policy
+		*b.step++
+		switch *b.step {
+		case 1:
+			return CmdCreateDataNode("d0:8086", "d0:8088")
+		case 2:
+			return CmdCreateDatabase("db0", nil)
+		default:
+			return CmdCreateRP("db0", "rp0", 0, time.Hour, 1, true)
+		}
+	}
+	if b.Groups {
+		hour := func() int64 {
+			return t2000 + int64(rapid.IntRange(0, 5).Draw(t, l+".ghour"))*int64(time.Hour) + int64(rapid.SampledFrom([]int{0, 0, 10, 30, 59}).Draw(t, l+".gmin"))*int64(time.Minute)
+		}
+		switch k := rapid.IntRange(0, 23).Draw(t, l+".gk"); {
+		case k == 0:
+			n := rapid.IntRange(0, 1).Draw(t, l+".dn")
+			return CmdCreateDataNode(fmt.Sprintf("d%d:8086", n), fmt.Sprintf("d%d:8088", n))
+		case k == 1:
+			return CmdCreateDatabase("db0", nil)
+		case k == 2:
+			return CmdCreateRP("db0", "rp0", 0, time.Hour, 1, true)
+		case k < 7:
+			return CmdCreateShardGroup("db0", "rp0", hour())
+		case k < 9:
+			return CmdDeleteShardGroup("db0", "rp0", uint64(rapid.IntRange(1, 6).Draw(t, l+".sg")))
+		case k < 11:
+			sg := rapid.SampledFrom([]time.Duration{time.Hour, 6 * time.Hour, 24 * time.Hour}).Draw(t, l+".gsg")
+			return CmdUpdateRP("db0", "rp0", nil, nil, nil, &sg, true)
+		case k == 11:
+			return CmdTruncate(hour())
 		}
 	}
 	if b.Owners {
